@@ -339,6 +339,74 @@ func evalCase(cs Case) (class, msg string) {
 	return "", ""
 }
 
+// evalManagedSeq: seed {GET /a, /a/b, /a/c} (a node with children); the Updates function performs an
+// ordered sequence of distinct writes and then panics; afterwards every seed route must still be
+// served by its original handler, nothing else must be registered and a new write must complete.
+var managedSteps = []string{"Update /a", "Update /a/b", "Update /a/c", "Handle /a/d", "Delete /a/c", "Handle /a/{x}"}
+
+func evalManagedSeq(seq []int) (string, string) {
+	f, _ := fox.New()
+	for _, p := range []string{"/a", "/a/b", "/a/c"} {
+		f.MustHandle("GET", p, fx.VerHandler(1), fx.WithVer(1))
+	}
+	type boom struct{}
+	var names []string
+	for _, i := range seq {
+		names = append(names, managedSteps[i])
+	}
+	desc := fmt.Sprintf("Updates performing [%s] and then panicking, on {GET /a, /a/b, /a/c}", strings.Join(names, "; "))
+	var escaped any
+	func() {
+		defer func() { escaped = recover() }()
+		f.Updates(func(t *fox.Txn) error {
+			for _, i := range seq {
+				parts := strings.SplitN(managedSteps[i], " ", 2)
+				switch parts[0] {
+				case "Update":
+					t.Update("GET", parts[1], fx.VerHandler(2), fx.WithVer(2))
+				case "Handle":
+					t.Handle("GET", parts[1], fx.VerHandler(2), fx.WithVer(2))
+				case "Delete":
+					t.Delete("GET", parts[1])
+				}
+			}
+			panic(boom{})
+		})
+	}()
+	if _, ok := escaped.(boom); !ok {
+		return "panic-swallowed", fmt.Sprintf("the panic value did not propagate unchanged (%v): %s", escaped, desc)
+	}
+	var after any
+	var got []string
+	func() {
+		defer func() { after = recover() }()
+		for _, p := range []string{"/a", "/a/b", "/a/c", "/a/d", "/a/zz"} {
+			rw := fx.NewRW()
+			f.ServeHTTP(rw, fx.Req("GET", "", p))
+			got = append(got, fmt.Sprintf("%s=%d/v%s", p, rw.Code, rw.H.Get("V")))
+			if rt := f.Route("GET", p); rt != nil {
+				got = append(got, fmt.Sprintf("route%s=v%d", p, fx.RouteVer(rt)))
+			}
+		}
+		got = append(got, fmt.Sprintf("len=%d", f.Len()))
+	}()
+	want := "/a=200/v1 route/a=v1 /a/b=200/v1 route/a/b=v1 /a/c=200/v1 route/a/c=v1 /a/d=404/v /a/zz=404/v len=3"
+	if after != nil || strings.Join(got, " ") != want {
+		return "routes-changed", fmt.Sprintf("after the panic the router answers [%s] (panic %v), want [%s]: %s", strings.Join(got, " "), after, want, desc)
+	}
+	var lockErr any
+	func() {
+		defer func() { lockErr = recover() }()
+		if _, err := f.Handle("GET", "/after", fx.VerHandler(1)); err != nil {
+			lockErr = err
+		}
+	}()
+	if lockErr != nil {
+		return "lock-not-released", fmt.Sprintf("a later write failed (%v): %s", lockErr, desc)
+	}
+	return "", ""
+}
+
 // managed transaction functions: a panic after every prefix of the body.
 func evalManaged(view bool, prefix int) (string, string) {
 	f, _ := fox.New()
@@ -418,7 +486,7 @@ func run(c *mc.Ctx, r *mc.Result) {
 			hs = append(hs, h)
 		}
 	}
-	r.Bounds["space"] = fmt.Sprintf("%d panic values x 5 response progress states x 9 panic sites (5 handler kinds + a middleware constructor panicking during Router.Handle / Router.Update / Txn.Handle in Updates / NewRoute issued by a handler) x %d request header spellings (6 sensitive names, each canonical / as documented / lower / upper / mixed, + none); Updates and View panicking after every prefix of a 3-operation body", len(pvs), len(hs))
+	r.Bounds["space"] = fmt.Sprintf("%d panic values x 5 response progress states x 9 panic sites (5 handler kinds + a middleware constructor panicking during Router.Handle / Router.Update / Txn.Handle in Updates / NewRoute issued by a handler) x %d request header spellings (6 sensitive names, each canonical / as documented / lower / upper / mixed, + none); Updates and View panicking after every prefix of a 3-operation body; Updates panicking after every ordered sequence of <=3 distinct writes over 6 on a node with children", len(pvs), len(hs))
 	idx := 0
 	for vi := range pvs {
 		for prog := 0; prog < nProgs; prog++ {
@@ -440,6 +508,35 @@ func run(c *mc.Ctx, r *mc.Result) {
 		}
 	}
 	if c.Shard == 0 {
+		// every ordered sequence of <=3 distinct writes, then a panic
+		var seqs [][]int
+		var gen func(cur []int)
+		gen = func(cur []int) {
+			if len(cur) > 0 {
+				seqs = append(seqs, append([]int{}, cur...))
+			}
+			if len(cur) == 3 {
+				return
+			}
+		next:
+			for i := range managedSteps {
+				for _, j := range cur {
+					if i == j {
+						continue next
+					}
+				}
+				gen(append(cur, i))
+			}
+		}
+		gen(nil)
+		for _, sq := range seqs {
+			class, msg := evalManagedSeq(sq)
+			r.Evaluations++
+			r.DistinctNontrivial++
+			if class != "" {
+				r.Violate("faults", class, msg, map[string]any{"managed_seq": sq})
+			}
+		}
 		for _, view := range []bool{false, true} {
 			for p := 0; p <= 3; p++ {
 				class, msg := evalManaged(view, p)
@@ -690,6 +787,14 @@ func init() {
 			defer un()
 			var probe map[string]any
 			json.Unmarshal(raw, &probe)
+			if sq, ok := probe["managed_seq"].([]any); ok {
+				var seq []int
+				for _, x := range sq {
+					seq = append(seq, int(x.(float64)))
+				}
+				_, msg := evalManagedSeq(seq)
+				return msg
+			}
 			if probe["managed"] == true {
 				_, msg := evalManaged(probe["view"] == true, int(probe["prefix"].(float64)))
 				return msg
